@@ -878,10 +878,9 @@ def bulk_concurrency(c, repo, quick):
                 e = o.get("error")
                 rq = byid.get(o.get("req_id"), {})
                 if e is None and "payload" not in o:
-                    # reported: build/sign of a document that has no members of its type (here: the typed requests carrying the filler
-                    # object, none of whose members the type knows) is answered with neither payload nor error (schema.Insert writes
-                    # `{"$schema":"...",}`, processRequest drops the marshalling error)
-                    if not (rq.get("action") in ("build", "sign") and o.get("req_id") in filler):
+                    # (repaired in /repo fdd1053: a document left without members was written with a trailing comma by schema.Insert and
+                    # the bulk reply then carried neither payload nor error; no exclusion is left)
+                    if True:
                         c.report("POST /bulk (%s) answers request %s with neither a result nor an error" % (how, o.get("req_id")),
                                  {"command": how_to % "<file with this line>", "stdin": json.dumps(rq)[:20000]})
                 if e is not None:
